@@ -5,7 +5,7 @@ from __future__ import annotations
 import itertools
 
 from .minieval import Interp, Obj, Raised, Raises
-from .model import Model
+from .model import ClassRef, Model
 
 TAB = 'pytableaux.proof.tableaux'
 
@@ -45,7 +45,7 @@ def fold_rule_target(m: Model):
         for scores in ((), (0.0,), (1.0, 3.0, 3.0, 2.0), (-1.0, -5.0)):
             targets = [Tgt(f't{i}') for i in range(len(scores))]
             score = dict(zip(map(id, targets), scores))
-            rule = Obj('rule', opts={'is_rank_optim': rank})
+            rule = Obj('rule', __srcclass__=(m, ClassRef(TAB, 'Rule')), opts={'is_rank_optim': rank})
             rule.timers = {'search': _CM()}
             rule._get_targets = lambda branch: iter(list(targets))
             rule.score_candidate = lambda t: score[id(t)]
@@ -95,7 +95,7 @@ def fold_group_application(m: Model):
                 rl.target = (lambda t: (lambda branch: t))(t)
                 rl.group_score = (lambda sc: (lambda target: sc))(sc)
                 rules.append((rl, t, sc))
-            tab = Obj('tableau', opts={'is_group_optim': gopt})
+            tab = Obj('tableau', __srcclass__=(m, ClassRef(TAB, 'Tableau')), opts={'is_group_optim': gopt})
             StepEntry = lambda rule, target, dur: Obj('entry', rule=rule, target=target, duration=dur)
             it = Interp(dict(deque=deque, Tableau=Obj('Tableau', StepEntry=StepEntry), Counter=lambda: 'CTR', bool=bool, len=len,
                              Target=lambda *a, **k: Tgt('fresh-copy', **dict(a[0] if a else {}, **k))), where='Tableau._get_group_application')
